@@ -28,8 +28,14 @@ namespace awkward {
   const BuilderPtr
   OptionBuilder::fromvalids(const ArrayBuilderOptions& options,
                             const BuilderPtr& content) {
+    // a RecordBuilder/TupleBuilder that has not begun its first record yet (e.g. after
+    // clear()) reports length -1: it holds no entries
+    int64_t length = content->length();
+    if (length < 0) {
+      length = 0;
+    }
     GrowableBuffer<int64_t> index =
-      GrowableBuffer<int64_t>::arange(options, content->length());
+      GrowableBuffer<int64_t>::arange(options, length);
     return std::make_shared<OptionBuilder>(options,
                                            index,
                                            content);
